@@ -85,6 +85,9 @@ func (fr *Frame) execCall(cc *ssa.CallCommon, st *State, site ssa.Instruction, d
 	if ci, ok := vc.closures[fv.C[0]]; ok {
 		return fr.callFunction(ci.fn, ci.bindings, args, resT, st, site, deferred, cc)
 	}
+	if fn, ok := vc.funcRefs[fv.C[0]]; ok {
+		return fr.callFunction(fn, nil, args, resT, st, site, deferred, cc)
+	}
 	if c := vc.eng.typeContract(cc.Value.Type()); c != nil {
 		names := contractParamNames(c, nil, cc.Signature(), false)
 		return fr.applyContract(c, names, sigParamTypes(cc.Signature()), args, resT, st, site, fr.calleeName(cc))
@@ -297,6 +300,7 @@ func (fr *Frame) unknownCall(cc *ssa.CallCommon, args []Value, st *State, site s
 		return Value{}, nil
 	}
 	v := vc.freshValue("ret."+shortName(name), resT, st)
+	vc.assume(st, vc.allocFacts(st, v, resT))
 	return v, nil
 }
 
@@ -378,6 +382,7 @@ func (fr *Frame) applyContract(c *Contract, names []string, ptypes []types.Type,
 	var res Value
 	if resT != nil && resT.Len() > 0 {
 		res = vc.freshValue("ret."+shortName(callee), resT, st)
+		vc.assume(st, vc.allocFacts(st, res, resT))
 		for i := 0; i < resT.Len(); i++ {
 			lo, hi := tupleRange(resT, i)
 			b := bound{Value{C: res.C[lo:hi]}, resT.At(i).Type()}
@@ -567,7 +572,7 @@ func (fr *Frame) execAppend(cc *ssa.CallCommon, args []Value, st *State, site ss
 	tlen := tl.C[2]
 	newLen := vc.define("append.len", "Int", iAdd(s.C[2], tlen))
 	inplace := vc.defineBool("append.inplace", "(<= "+newLen+" "+s.C[3]+")")
-	a := vc.newAlloc(types.NewArray(et, 0), true)
+	a := vc.newAlloc(st, types.NewArray(et, 0), true)
 	ncap := vc.fresh("append.cap", "Int")
 	vc.assumeAlways("(>= " + ncap + " " + newLen + ")")
 	res := Value{C: []Term{
